@@ -13,6 +13,7 @@ static Obj *current_fn;
 
 static void gen_expr(Node *node);
 static void gen_stmt(Node *node);
+static void discard(Type *ty);
 
 __attribute__((format(printf, 1, 2)))
 static void println(char *fmt, ...) {
@@ -155,6 +156,7 @@ static void gen_addr(Node *node) {
     return;
   case ND_COMMA:
     gen_expr(node->lhs);
+    discard(node->lhs->ty);
     gen_addr(node->rhs);
     return;
   case ND_MEMBER:
